@@ -90,6 +90,8 @@ THEOREMS.update({
     "C03_predict_stable_refuted_without_mappings": "the construction WITHOUT the mappings (the code before the repair) violates the clause: exists one posterior sample and one experiment "
                                                    "predicted 22 at the training stage and 11 after one reveal_plates (vm_compute witness)",
 })
+RULE += ("  Big simulations (8 quick / 80 thorough, kind sim): 12-30 plates, 11-30 samples, random unicode names up to 40 characters, up to ~120 rows (thorough ~300), "
+         "histories of 3-12 operations revealing any of the plate ids.")
 RULE += ("  kind prepare, prediction clause (predict_stages): train_model.main() then runs TO THE END on that stage (SparseDrugCombo; for arity 2 also SparseDrugComboInteraction; "
          "1 chain, burn-in 0, 2 samples), the thetas it wrote are loaded back with ThetaHolder.load_h5, and each posterior sample's predict_viability / predict_conditional_mean / "
          "predict_conditional_variance is evaluated on the training screen, the test screen, the training screen after a reveal, that screen saved and loaded, the training screen after "
@@ -225,6 +227,31 @@ def gen(rng, tier):
         test = rng.random() < (0.08 if fraction == 0.0 else 0.4)
         yield dict(kind="sim", parent=parent, fraction=fraction, seed=rng.randrange(10 ** 6), test=test,
                    ops=simlib.gen_ops(rng, with_setobs=False, cli=(rng.random() < 0.5)))
+    # big simulations (gap review g1, item 9): 12-30 plates, 11-30 samples, random unicode names, up to 120 rows (thorough 300), histories of
+    # up to 12 operations revealing any plate ids (ids reach two digits; a sample / treatment confined to one plate)
+    import c01
+    for i in range(8 * N):
+        big = tier != "quick"
+        n_pl = rng.randint(12, 30)
+        pool = lambda k: sorted({c01._rand_name(rng, 40) for _ in range(k * 2)})[:k]      # noqa
+        plates, samples, tnames = pool(n_pl), pool(rng.randint(11, 30)), pool(rng.randint(5, 20))
+        ctrl = rng.choice(sl.CTRLS)
+        arity = rng.choice([1, 2, 2, 3])
+        doses = rng.sample(sl.DOSES, 4) + [0.1 * rng.randint(1, 40) for _ in range(6)]
+        rows = []
+        for j, p in enumerate(plates):
+            observed = (j == 0) or rng.random() < 0.15
+            own_s = samples[j % len(samples)] if rng.random() < 0.5 else None
+            for _ in range(rng.randint(1, 10 if big else 4)):
+                rows.append(dict(s=own_s or rng.choice(samples), p=p, t=[[rng.choice(tnames + [ctrl]), rng.choice(doses)] for _ in range(arity)],
+                                 o=rng.choice([0.25, 0.5, 0.75, 0.125, 1.0, 0.3]), m=observed))
+        rng.shuffle(rows)
+        ops = []
+        for _ in range(rng.randint(3, 12)):
+            u = rng.random()
+            ops.append(["reveal", rng.sample(range(len(plates)), rng.randint(1, 4))] if u < 0.6 else [rng.choice(["mask", "unmask", "saveload"])])
+        yield dict(kind="sim", parent=dict(rows=rows, arity=arity, ctrl=ctrl, obs_given=True, mask_given=True, tmap=None, smap=None),
+                   fraction=rng.choice([0.1, 0.3, 0.5, 1.0]), seed=rng.randrange(10 ** 6), test=rng.random() < 0.3, ops=ops)
     # the prepared simulation as the prepare_retrospective_simulation CLI makes it (generator / smoother / initial plate options)
     import retrolib as L
     R = "batchie.retrospective."
